@@ -90,9 +90,12 @@ def standard_plan(chk, focus, nt_key, kinds_quick=("sort",), kinds_thorough=("so
         plans.append(("d3-idle0", dict(depth=3, MaxIdle=0)))
         plans.append(("d3-idle1-maha", dict(depth=3, MaxIdle=1, Metric="maha", Thr=1000, MaxDets=1)))
         plans.append(("sim60", dict(depth=60, MaxIdle=1, sim=6, simulate={"num": 12, "depth": 61})))
+        # scene 0 = the default-scene entry points (predict, skip_epochs, idle_tracks, current_epoch)
+        plans.append(("d3-default-scene", dict(depth=3, MaxIdle=0, Scenes={0, 1}, Confs={900}, MaxDets=1)))
     else:
         plans.append(("d3-idle0", dict(depth=3, MaxIdle=0)))
         plans.append(("d3-idle0-maha", dict(depth=3, MaxIdle=0, Metric="maha", Thr=1000)))
+        plans.append(("d3-default-scene", dict(depth=3, MaxIdle=0, Scenes={0, 1}, MaxDets=1)))
         plans.append(("d4-idle1", dict(depth=4, MaxIdle=1, Slots={1}, MaxDets=2, Confs={900, 500})))
         plans.append(("d4-idle1-h1", dict(depth=4, MaxIdle=1, H=1, Confs={900}, MaxDets=1)))
         plans.append(("sim250", dict(depth=250, MaxIdle=2, H=3, Slots={1, 2, 3}, sim=6, simulate={"num": 12, "depth": 251})))
